@@ -159,9 +159,9 @@ def installed(chooser, bundle="axis6", rw_maxiter=None, events=None, fault_steps
     NBE = nbe.NonBondEngine
     o_add, o_rm, o_cat, o_from = NBE.add_positions, NBE.remove_positions, NBE.concatenate_trees, NBE.from_topology
 
-    def m_add(self, point, mol_idx, node_key, start=True):
+    def m_add(self, point, mol_idx, node_key, start=True, *a, **k):
         ev.append(("add", mol_idx, node_key, tuple(np.asarray(point, dtype=float).tolist()), bool(start)))
-        return o_add(self, point, mol_idx, node_key, start=start)
+        return o_add(self, point, mol_idx, node_key, start, *a, **k)
 
     def m_rm(self, mol_idx, node_keys):
         keys = list(node_keys)
@@ -176,8 +176,8 @@ def installed(chooser, bundle="axis6", rw_maxiter=None, events=None, fault_steps
     patch(NBE, "concatenate_trees", m_cat)
     orig_from = NBE.__dict__["from_topology"].__func__
 
-    def m_from(cls, molecules, topology, box):
-        eng = orig_from(cls, molecules, topology, box)
+    def m_from(cls, molecules, topology, box, *a, **k):
+        eng = orig_from(cls, molecules, topology, box, *a, **k)
         book["engine"] = eng
         init = {}
         for (m, k), g in eng.nodes_to_gndx.items():
